@@ -247,6 +247,15 @@ impl Ref {
         });
     }
 
+    /// load of an image that may say *PROGRAMSIZE NOSET (the limit in force is kept)
+    pub fn load_image(&mut self, bytes: &[u8], stack: u8, limit: Option<u8>, keep_limit: bool) {
+        let prev = self.limit;
+        self.load(bytes, stack, limit);
+        if keep_limit {
+            self.limit = prev;
+        }
+    }
+
     pub fn cpu_reset(&mut self) {
         self.r = [0; 4];
         self.fr = 0;
